@@ -9,7 +9,9 @@ FieldSpace(nm) ==
         /\ ~(SrcFlag(f.attr) = "yes" /\ f.ty = "bt")
         \* the two-parameter spellings only where they matter (keeps the space small)
         /\ (f.attr \in {"nb_source", "source_nb"} => f.ty \in {"err", "generic"})
-        /\ (f.attr \in {"ns_backtrace", "backtrace_ns"} => f.ty \in {"err", "bt"})}
+        /\ (f.attr \in {"ns_backtrace", "backtrace_ns"} => f.ty \in {"err", "bt"})
+        \* an error type merely CALLED Backtrace: where it is told not to be the backtrace (or left alone)
+        /\ (f.ty = "bterr" => f.attr \in {"not_backtrace", "nb_source", "source_nb", "none", "ignore"})}
 
 Init == /\ l = <<>> /\ named \in BOOLEAN /\ isVariant \in BOOLEAN
         /\ comp \in {"unit", "ignored", "sourced"} /\ (~isVariant => comp = "unit")
